@@ -2,9 +2,10 @@
 \* Mapped axes: user nodes = every subset of UVals/Den with 1..4 elements (0, .5, 1, 2, 2.5, 3.5, 4),
 \* design values = every non-decreasing assignment from DVals/Den (0, .5, 1.5, 2, 3, 3.5, 4), default at every
 \* node, restricted to Valid(case); plus every axis without a <map> with min <= default <= max on UVals/Den; dense user grid = every multiple of 1/4 in [min, max].
+\* Plus the fixture axes from the ndjson file named by the environment variable C08_CASES (may be empty).
 SPECIFICATION Spec
 CONSTANTS
-    Source = "both"
+    Source = "all"
     UVals = {0, 1, 2, 4, 5, 7, 8}
     DVals = {0, 1, 3, 4, 6, 7, 8}
     Den = 2
